@@ -10,6 +10,7 @@ import (
 	"go/token"
 	"go/types"
 	"sort"
+	"strconv"
 	"strings"
 
 	"golang.org/x/tools/go/packages"
@@ -44,6 +45,8 @@ type strEval struct {
 	// applyFormatAll: argument expression -> the one row value it stands for in the current combination
 	pinInt map[ast.Expr]int64
 	pinStr map[ast.Expr]string
+	// nesting of single-definition locals being resolved
+	localDepth int
 }
 
 func newStrEval(p *Program, pk *packages.Package) *strEval {
@@ -120,6 +123,8 @@ type strEnv map[types.Object]ast.Expr // parameter -> argument expression (evalu
 type envFrame struct {
 	env   strEnv
 	outer *envFrame
+	// the evaluator of the calling function (its type information resolves the argument expressions of env)
+	callerSE *strEval
 	// string-valued locals of the function being summarised (`style := vx.cursorStyle()`), evaluated in order
 	locals map[types.Object][]string
 }
@@ -131,6 +136,14 @@ func (se *strEval) eval(e ast.Expr, fr *envFrame) ([]string, bool) {
 		return []string{s}, true
 	}
 	switch t := e.(type) {
+	case *ast.BasicLit:
+		// a synthesised zero value (resolveStatic): go/types has no constant for it
+		if t.Kind == token.STRING {
+			if s, err := strconv.Unquote(t.Value); err == nil {
+				return []string{s}, true
+			}
+		}
+		return nil, false
 	case *ast.Ident:
 		obj := se.info.ObjectOf(t)
 		if fr != nil {
@@ -139,6 +152,21 @@ func (se *strEval) eval(e ast.Expr, fr *envFrame) ([]string, bool) {
 			}
 			if arg, ok := fr.env[obj]; ok {
 				return se.eval(arg, fr.outer)
+			}
+		}
+		// a local that is assigned exactly once stands for its defining expression (`seq := decset(m)` ...
+		// `w.WriteString(seq)`): the template domain has no notion of time, and what it folds (constants,
+		// package-level strings with all their variants, table rows) does not depend on when it is evaluated
+		if v, ok := obj.(*types.Var); ok && !v.IsField() && v.Pkg() != nil && v.Parent() != v.Pkg().Scope() && se.localDepth < 6 {
+			if src := singleDefOf(se.info, obj); src != nil {
+				if bt, isB := v.Type().Underlying().(*types.Basic); isB && bt.Info()&types.IsString != 0 {
+					se.localDepth++
+					vals, ok := se.eval(src, fr)
+					se.localDepth--
+					if ok {
+						return vals, true
+					}
+				}
 			}
 		}
 		// the value variable of a range over a read-only package-level table: one value per row
@@ -173,6 +201,15 @@ func (se *strEval) eval(e ast.Expr, fr *envFrame) ([]string, bool) {
 				out = appendUniq(out, vals...)
 			}
 			return out, true
+		}
+		// a field of a constant row of a literal table (T[3].seq) or of a local struct literal (seqs.reset)
+		if r := resolveStatic(se.info, t); r != nil {
+			return se.eval(r, fr)
+		}
+		return nil, false
+	case *ast.IndexExpr:
+		if r := resolveStatic(se.info, t); r != nil {
+			return se.eval(r, fr)
 		}
 		return nil, false
 	case *ast.BinaryExpr:
@@ -250,7 +287,7 @@ func (se *strEval) eval(e ast.Expr, fr *envFrame) ([]string, bool) {
 				callee = newStrEval(se.p, fi.Pkg)
 				callee.depth = se.depth
 			}
-			return callee.evalBody(fi, &envFrame{env: env, outer: fr}, t, variadicStart, se, fr)
+			return callee.evalBody(fi, &envFrame{env: env, outer: fr, callerSE: se}, t, variadicStart, se, fr)
 		}
 		return nil, false
 	}
@@ -258,8 +295,9 @@ func (se *strEval) eval(e ast.Expr, fr *envFrame) ([]string, bool) {
 }
 
 // evalBody evaluates a string-returning function body of one of the forms
-//   return <expr>
-//   b := <builder>; b.WriteString(x)...; return b.String()
+//
+//	return <expr>
+//	b := <builder>; b.WriteString(x)...; return b.String()
 func (se *strEval) evalBody(fi *FuncInfo, fr *envFrame, call *ast.CallExpr, variadicStart int, callerSE *strEval, callerFr *envFrame) ([]string, bool) {
 	body := fi.Decl.Body.List
 	if len(body) == 1 {
@@ -285,69 +323,357 @@ func (se *strEval) evalBody(fi *FuncInfo, fr *envFrame, call *ast.CallExpr, vari
 			return se.eval(rs.Results[0], fr)
 		}
 	}
-	// straight-line builder, with string-valued intermediates (`style := vx.cursorStyle()` ... `return style + x`)
-	var builder types.Object
-	acc := []string{""}
+	// statement list: builders, string-valued intermediates, and returns selected by conditions on the arguments
 	if fr != nil && fr.locals == nil {
 		fr.locals = map[types.Object][]string{}
 	}
-	for _, s := range body {
-		switch st := s.(type) {
+	st := &bodyState{acc: []string{""}}
+	vals, returned, ok := se.evalStmts(body, fr, st, 0)
+	if !ok || !returned {
+		return nil, false
+	}
+	return vals, true
+}
+
+// bodyState: the string builder of a function body being summarised and what was written to it so far.
+type bodyState struct {
+	builder types.Object
+	acc     []string
+}
+
+// evalStmts evaluates a statement list of a string-returning helper: returned=true with the possible results if
+// every path through the list returns; returned=false (and ok) if control falls out of the list. Conditions that
+// depend only on constant arguments select one branch; any other condition keeps both (the result is the union),
+// provided the branches do nothing but return.
+func (se *strEval) evalStmts(list []ast.Stmt, fr *envFrame, st *bodyState, depth int) (vals []string, returned bool, ok bool) {
+	if depth > 6 {
+		return nil, false, false
+	}
+	var pending []string // results of returns taken under undecided conditions
+	for _, s := range list {
+		switch t := s.(type) {
+		case *ast.BlockStmt:
+			v, ret, ok := se.evalStmts(t.List, fr, st, depth+1)
+			if !ok {
+				return nil, false, false
+			}
+			if ret {
+				return appendUniq(pending, v...), true, true
+			}
 		case *ast.AssignStmt:
-			if len(st.Lhs) == 1 && len(st.Rhs) == 1 && st.Tok == token.DEFINE {
-				if id, ok := st.Lhs[0].(*ast.Ident); ok {
+			if len(t.Lhs) == 1 && len(t.Rhs) == 1 && t.Tok == token.DEFINE {
+				if id, isID := t.Lhs[0].(*ast.Ident); isID {
 					if bt, isB := se.info.TypeOf(id).Underlying().(*types.Basic); isB && bt.Info()&types.IsString != 0 && fr != nil {
-						vals, ok := se.eval(st.Rhs[0], fr)
+						v, ok := se.eval(t.Rhs[0], fr)
 						if !ok {
-							return nil, false
+							return nil, false, false
 						}
-						fr.locals[se.info.Defs[id]] = vals
+						fr.locals[se.info.Defs[id]] = v
 						continue
 					}
-					if builder == nil {
-						builder = se.info.Defs[id]
+					if isBuilderType(se.info.TypeOf(id)) {
+						if st.builder == nil {
+							st.builder = se.info.Defs[id]
+							continue
+						}
+						return nil, false, false
+					}
+					// any other local (`next := &vx.cursorNext`): what is written from it stays a hole
+					continue
+				}
+			}
+			// `_ = x` (left behind by helper inlining) has no effect
+			if len(t.Lhs) == 1 && t.Tok == token.ASSIGN {
+				if id, isID := t.Lhs[0].(*ast.Ident); isID && id.Name == "_" {
+					if _, isCall := unparen(t.Rhs[0]).(*ast.CallExpr); !isCall {
 						continue
 					}
 				}
 			}
-			return nil, false
+			return nil, false, false
+		case *ast.DeclStmt:
+			// var b strings.Builder / var s string
+			gd, isGD := t.Decl.(*ast.GenDecl)
+			if !isGD || gd.Tok != token.VAR {
+				return nil, false, false
+			}
+			for _, sp := range gd.Specs {
+				vs := sp.(*ast.ValueSpec)
+				for i, nm := range vs.Names {
+					o := se.info.Defs[nm]
+					switch {
+					case isBuilderType(se.info.TypeOf(nm)) && len(vs.Values) == 0 && st.builder == nil:
+						st.builder = o
+					case i < len(vs.Values) && fr != nil:
+						if bt, isB := se.info.TypeOf(nm).Underlying().(*types.Basic); isB && bt.Info()&types.IsString != 0 {
+							v, ok := se.eval(vs.Values[i], fr)
+							if !ok {
+								return nil, false, false
+							}
+							fr.locals[o] = v
+						}
+					}
+				}
+			}
 		case *ast.ExprStmt:
-			c2, ok := st.X.(*ast.CallExpr)
-			if !ok {
-				return nil, false
+			c2, isCall := t.X.(*ast.CallExpr)
+			if !isCall {
+				return nil, false, false
 			}
-			sel, ok := c2.Fun.(*ast.SelectorExpr)
-			if !ok || rootObj(se.info, sel.X) != builder || sel.Sel.Name != "WriteString" || len(c2.Args) != 1 {
-				return nil, false
+			sel, isSel := c2.Fun.(*ast.SelectorExpr)
+			if !isSel || st.builder == nil || rootObj(se.info, sel.X) != st.builder || sel.Sel.Name != "WriteString" || len(c2.Args) != 1 {
+				return nil, false, false
 			}
-			vals, ok := se.eval(c2.Args[0], fr)
+			v, ok := se.eval(c2.Args[0], fr)
 			if !ok {
-				return nil, false
+				return nil, false, false
 			}
 			var next []string
-			for _, a := range acc {
-				for _, v := range vals {
-					next = append(next, a+v)
+			for _, a := range st.acc {
+				for _, x := range v {
+					next = append(next, a+x)
 				}
 			}
-			acc = next
+			st.acc = next
 		case *ast.ReturnStmt:
-			if len(st.Results) == 1 {
-				if c2, ok := st.Results[0].(*ast.CallExpr); ok && builder != nil {
-					if sel, ok := c2.Fun.(*ast.SelectorExpr); ok && rootObj(se.info, sel.X) == builder && sel.Sel.Name == "String" {
-						return acc, true
+			if len(t.Results) != 1 {
+				return nil, false, false
+			}
+			if c2, isCall := t.Results[0].(*ast.CallExpr); isCall && st.builder != nil {
+				if sel, isSel := c2.Fun.(*ast.SelectorExpr); isSel && rootObj(se.info, sel.X) == st.builder && sel.Sel.Name == "String" {
+					return appendUniq(pending, st.acc...), true, true
+				}
+			}
+			if st.builder != nil {
+				return nil, false, false
+			}
+			v, ok := se.eval(t.Results[0], fr)
+			if !ok {
+				return nil, false, false
+			}
+			return appendUniq(pending, v...), true, true
+		case *ast.IfStmt:
+			if t.Init != nil {
+				return nil, false, false
+			}
+			if cv, known := se.constCond(t.Cond, fr); known {
+				var branch []ast.Stmt
+				if cv {
+					branch = t.Body.List
+				} else if t.Else != nil {
+					branch = []ast.Stmt{t.Else}
+				}
+				v, ret, ok := se.evalStmts(branch, fr, st, depth+1)
+				if !ok {
+					return nil, false, false
+				}
+				if ret {
+					return appendUniq(pending, v...), true, true
+				}
+				continue
+			}
+			// undecided: both arms may do nothing but return
+			for _, arm := range []ast.Stmt{t.Body, t.Else} {
+				if arm == nil {
+					continue
+				}
+				if !se.onlyReturns(arm) {
+					return nil, false, false
+				}
+				sub := &bodyState{builder: st.builder, acc: append([]string{}, st.acc...)}
+				v, ret, ok := se.evalStmts([]ast.Stmt{arm}, fr, sub, depth+1)
+				if !ok {
+					return nil, false, false
+				}
+				if ret {
+					pending = appendUniq(pending, v...)
+				}
+			}
+			if t.Else != nil {
+				if _, r1, _ := se.evalStmts([]ast.Stmt{t.Body}, fr, &bodyState{builder: st.builder, acc: append([]string{}, st.acc...)}, depth+1); r1 {
+					if _, r2, _ := se.evalStmts([]ast.Stmt{t.Else}, fr, &bodyState{builder: st.builder, acc: append([]string{}, st.acc...)}, depth+1); r2 {
+						return pending, true, true
 					}
 				}
-				if builder == nil {
-					return se.eval(st.Results[0], fr)
+			}
+		case *ast.SwitchStmt:
+			if t.Init != nil {
+				return nil, false, false
+			}
+			var def *ast.CaseClause
+			taken := false
+			allReturn := true
+			undecided := false
+			for _, cl := range t.Body.List {
+				cc := cl.(*ast.CaseClause)
+				if cc.List == nil {
+					def = cc
+					continue
+				}
+				match, known := false, true
+				for _, e := range cc.List {
+					var cond ast.Expr = e
+					if t.Tag != nil {
+						cond = &ast.BinaryExpr{X: t.Tag, Op: token.EQL, Y: e}
+					}
+					cv, k := se.constCond(cond, fr)
+					if !k {
+						known = false
+					} else if cv {
+						match = true
+					}
+				}
+				if match {
+					v, ret, ok := se.evalStmts(cc.Body, fr, st, depth+1)
+					if !ok {
+						return nil, false, false
+					}
+					if ret {
+						return appendUniq(pending, v...), true, true
+					}
+					taken = true
+					break
+				}
+				if !known {
+					undecided = true
+					if !se.onlyReturns(&ast.BlockStmt{List: cc.Body}) {
+						return nil, false, false
+					}
+					v, ret, ok := se.evalStmts(cc.Body, fr, &bodyState{builder: st.builder, acc: append([]string{}, st.acc...)}, depth+1)
+					if !ok {
+						return nil, false, false
+					}
+					if ret {
+						pending = appendUniq(pending, v...)
+					} else {
+						allReturn = false
+					}
 				}
 			}
-			return nil, false
+			if taken {
+				continue
+			}
+			if def != nil {
+				if undecided && !se.onlyReturns(&ast.BlockStmt{List: def.Body}) {
+					return nil, false, false
+				}
+				v, ret, ok := se.evalStmts(def.Body, fr, st, depth+1)
+				if !ok {
+					return nil, false, false
+				}
+				if ret {
+					if allReturn {
+						return appendUniq(pending, v...), true, true
+					}
+					pending = appendUniq(pending, v...)
+				}
+			}
 		default:
-			return nil, false
+			return nil, false, false
 		}
 	}
-	return nil, false
+	if len(pending) > 0 {
+		// some path returned under an undecided condition and the rest of the list fell through: not summarised
+		return nil, false, false
+	}
+	return nil, false, true
+}
+
+// onlyReturns: the statement (tree of blocks / if-else) consists of return statements only.
+func (se *strEval) onlyReturns(s ast.Stmt) bool {
+	switch t := s.(type) {
+	case *ast.ReturnStmt:
+		return true
+	case *ast.BlockStmt:
+		for _, x := range t.List {
+			if !se.onlyReturns(x) {
+				return false
+			}
+		}
+		return true
+	case *ast.IfStmt:
+		if t.Init != nil || !se.onlyReturns(t.Body) {
+			return false
+		}
+		return t.Else == nil || se.onlyReturns(t.Else)
+	}
+	return false
+}
+
+// constCond: the truth value of a condition that depends only on constants and constant arguments.
+func (se *strEval) constCond(e ast.Expr, fr *envFrame) (val, known bool) {
+	e = unparen(e)
+	if tv, ok := se.info.Types[e]; ok && tv.Value != nil && tv.Value.Kind() == constant.Bool {
+		return constant.BoolVal(tv.Value), true
+	}
+	switch t := e.(type) {
+	case *ast.Ident:
+		if fr != nil {
+			if arg, ok := fr.env[se.info.ObjectOf(t)]; ok {
+				// the argument is evaluated in the caller's frame with the caller's type information
+				if fr.callerSE != nil {
+					return fr.callerSE.constCond(arg, fr.outer)
+				}
+				return se.constCond(arg, fr.outer)
+			}
+		}
+	case *ast.UnaryExpr:
+		if t.Op == token.NOT {
+			v, k := se.constCond(t.X, fr)
+			return !v, k
+		}
+	case *ast.BinaryExpr:
+		switch t.Op {
+		case token.LAND:
+			a, ka := se.constCond(t.X, fr)
+			b, kb := se.constCond(t.Y, fr)
+			if (ka && !a) || (kb && !b) {
+				return false, true
+			}
+			return a && b, ka && kb
+		case token.LOR:
+			a, ka := se.constCond(t.X, fr)
+			b, kb := se.constCond(t.Y, fr)
+			if (ka && a) || (kb && b) {
+				return true, true
+			}
+			return a || b, ka && kb
+		case token.EQL, token.NEQ, token.LSS, token.LEQ, token.GTR, token.GEQ:
+			a, ka := se.constIntArg(t.X, fr)
+			b, kb := se.constIntArg(t.Y, fr)
+			if ka && kb {
+				switch t.Op {
+				case token.EQL:
+					return a == b, true
+				case token.NEQ:
+					return a != b, true
+				case token.LSS:
+					return a < b, true
+				case token.LEQ:
+					return a <= b, true
+				case token.GTR:
+					return a > b, true
+				case token.GEQ:
+					return a >= b, true
+				}
+			}
+			sa, ksa := se.constStrArg(t.X, fr)
+			sb, ksb := se.constStrArg(t.Y, fr)
+			if ksa && ksb && (t.Op == token.EQL || t.Op == token.NEQ) {
+				return (sa == sb) == (t.Op == token.EQL), true
+			}
+		}
+	}
+	return false, false
+}
+
+// isBuilderType: *bytes.Buffer / bytes.Buffer / strings.Builder (and pointers to them).
+func isBuilderType(t types.Type) bool {
+	switch typeName(t) {
+	case "bytes.Buffer", "strings.Builder":
+		return true
+	}
+	return false
 }
 
 // applyFormat substitutes constant arguments into the verbs of format; other verbs stay.
@@ -638,7 +964,30 @@ func (se *strEval) constIntArg(a ast.Expr, fr *envFrame) (int64, bool) {
 			return outer.constIntArg(arg, fr.outer)
 		}
 	}
+	if src := se.staticSource(a); src != nil {
+		se.localDepth++
+		v, ok := se.constIntArg(src, fr)
+		se.localDepth--
+		return v, ok
+	}
 	return 0, false
+}
+
+// staticSource: the expression a stands for when a is a local assigned exactly once (`mode := T[2]`) or a
+// constant part of a literal (T[2], T[2].f, seqs.f — resolveStatic); nil otherwise.
+func (se *strEval) staticSource(a ast.Expr) ast.Expr {
+	if se.localDepth > 6 {
+		return nil
+	}
+	switch t := unparen(a).(type) {
+	case *ast.Ident:
+		if v, ok := se.info.ObjectOf(t).(*types.Var); ok && !v.IsField() && v.Pkg() != nil && v.Parent() != v.Pkg().Scope() {
+			return singleDefOf(se.info, v)
+		}
+	case *ast.SelectorExpr, *ast.IndexExpr:
+		return resolveStatic(se.info, t)
+	}
+	return nil
 }
 
 func (se *strEval) constStrArg(a ast.Expr, fr *envFrame) (string, bool) {
@@ -654,6 +1003,12 @@ func (se *strEval) constStrArg(a ast.Expr, fr *envFrame) (string, bool) {
 			return se.constStrArg(arg, fr.outer)
 		}
 	}
+	if src := se.staticSource(a); src != nil {
+		se.localDepth++
+		v, ok := se.constStrArg(src, fr)
+		se.localDepth--
+		return v, ok
+	}
 	return "", false
 }
 
@@ -662,6 +1017,15 @@ func (se *strEval) constStrArg(a ast.Expr, fr *envFrame) (string, bool) {
 // `vx.caps.rgb`, `w.vx.caps.rgb` and `k.vx.caps.rgb` all become "Vaxis.caps.rgb".
 func canonPath(info *types.Info, e ast.Expr) string {
 	e = unparen(e)
+	// a constant part of a literal (row field of a table, field of a local struct literal) is what it is defined as
+	switch e.(type) {
+	case *ast.SelectorExpr, *ast.IndexExpr:
+		if r := resolveStatic(info, e); r != nil {
+			if _, isLit := unparen(r).(*ast.CompositeLit); !isLit {
+				return canonExpr(info, r)
+			}
+		}
+	}
 	var fields []string
 	cur := e
 	hops := 0
@@ -714,6 +1078,19 @@ func canonPath(info *types.Info, e ast.Expr) string {
 				fields = append([]string{fmt.Sprintf("[%d]", v)}, fields...)
 				cur = t.X
 				continue
+			}
+			// X[i] with i the key of `for i := range X` is the element the loop is at: X[*]
+			if kid, ok := unparen(t.Index).(*ast.Ident); ok && canonDepth < 6 {
+				if rx := rangeKeySourceOf(info, kid); rx != nil {
+					canonDepth++
+					same := canonPath(info, rx) == canonPath(info, t.X)
+					canonDepth--
+					if same {
+						fields = append([]string{"[*]"}, fields...)
+						cur = t.X
+						continue
+					}
+				}
 			}
 			if canonDepth < 6 {
 				canonDepth++
@@ -805,6 +1182,17 @@ func joinPath(root string, fields []string) string {
 
 var rangeSourceTables = map[*types.Info]map[types.Object]ast.Expr{}
 
+var rangeKeyTables = map[*types.Info]map[types.Object]ast.Expr{}
+
+// rangeKeySourceOf: id is the key variable of exactly one range statement and is never assigned otherwise;
+// returns the ranged-over expression.
+func rangeKeySourceOf(info *types.Info, id *ast.Ident) ast.Expr {
+	if t := rangeKeyTables[info]; t != nil {
+		return t[info.ObjectOf(id)]
+	}
+	return nil
+}
+
 // rangeSourceOf: id is the value variable of exactly one range statement and is never assigned otherwise;
 // returns the ranged-over expression.
 func rangeSourceOf(info *types.Info, id *ast.Ident) ast.Expr {
@@ -887,6 +1275,31 @@ func condKeys(info *types.Info, c *Cond, pol bool) []string {
 
 func exprKeys(info *types.Info, e ast.Expr, pol bool) []string {
 	e = unparen(e)
+	// a constant condition constrains nothing (or excludes the location altogether)
+	if tv, ok := info.Types[e]; ok && tv.Value != nil && tv.Value.Kind() == constant.Bool {
+		if constant.BoolVal(tv.Value) == pol {
+			return nil
+		}
+		return []string{"⊥"}
+	}
+	if v, ok := synthBool(info, e); ok {
+		if v == pol {
+			return nil
+		}
+		return []string{"⊥"}
+	}
+	switch e.(type) {
+	case *ast.SelectorExpr, *ast.IndexExpr:
+		// a boolean part of a literal (T[3].wanted, seqs.short) is read as the expression it was given
+		if r := resolveStatic(info, e); r != nil && flagDepth < 4 {
+			if _, isLit := unparen(r).(*ast.CompositeLit); !isLit {
+				flagDepth++
+				out := exprKeys(info, r, pol)
+				flagDepth--
+				return out
+			}
+		}
+	}
 	switch t := e.(type) {
 	case *ast.UnaryExpr:
 		if t.Op == token.NOT {
@@ -918,7 +1331,30 @@ func exprKeys(info *types.Info, e ast.Expr, pol bool) []string {
 				val := constant.BoolVal(tv.Value)
 				return exprKeys(info, t.X, (val == (t.Op == token.EQL)) == pol)
 			}
-			return []string{canonExpr(info, t.X) + op.String() + canonExpr(info, t.Y)}
+			x, y := t.X, t.Y
+			// a constant on the left: c < x is x > c
+			if _, xc := constInt(info, x); xc {
+				if _, yc := constInt(info, y); !yc {
+					x, y = y, x
+					op = mirrorOp(op)
+				}
+			}
+			// a length is never negative: n > 0, n >= 1 are n != 0; n < 1, n <= 0 are n == 0
+			if isLengthExpr(info, x) {
+				if c, ok := constInt(info, y); ok {
+					switch {
+					case (op == token.GTR && c == 0) || (op == token.GEQ && c == 1):
+						op, y = token.NEQ, zeroIntLit
+					case (op == token.LSS && c == 1) || (op == token.LEQ && c == 0):
+						op, y = token.EQL, zeroIntLit
+					}
+				}
+			}
+			ys := "0"
+			if y != zeroIntLit {
+				ys = canonExpr(info, y)
+			}
+			return []string{canonExpr(info, x) + op.String() + ys}
 		}
 	}
 	// a boolean local defined once by a condition (`private := len(x) == 1 && x[0] == '?'`) stands for it
@@ -955,6 +1391,43 @@ func exprKeys(info *types.Info, e ast.Expr, pol bool) []string {
 		}
 	}
 	return out
+}
+
+var zeroIntLit ast.Expr = &ast.BasicLit{Kind: token.INT, Value: "0"}
+
+func mirrorOp(op token.Token) token.Token {
+	switch op {
+	case token.LSS:
+		return token.GTR
+	case token.GTR:
+		return token.LSS
+	case token.LEQ:
+		return token.GEQ
+	case token.GEQ:
+		return token.LEQ
+	}
+	return op
+}
+
+// isLengthExpr: len(x), cap(x) or a call of a method named Len without arguments.
+func isLengthExpr(info *types.Info, e ast.Expr) bool {
+	call, ok := unparen(e).(*ast.CallExpr)
+	if !ok {
+		return false
+	}
+	switch f := call.Fun.(type) {
+	case *ast.Ident:
+		if _, isB := info.Uses[f].(*types.Builtin); isB && (f.Name == "len" || f.Name == "cap") {
+			return true
+		}
+	case *ast.SelectorExpr:
+		if f.Sel.Name == "Len" && len(call.Args) == 0 {
+			if bt, ok := info.TypeOf(call).Underlying().(*types.Basic); ok && bt.Kind() == types.Int {
+				return true
+			}
+		}
+	}
+	return false
 }
 
 func canonExpr(info *types.Info, e ast.Expr) string {
@@ -1158,6 +1631,34 @@ func ExtractEmissions(p *Program, fis []*FuncInfo, isSink SinkFn) []*Emission {
 		})
 		for _, u := range units {
 			g := u.g
+			// a sink method taken as a VALUE (`write := w.WriteString`, a method expression in a table): what is
+			// written through it is not visible at the calls of the value. The common benign form is rewritten
+			// away before the rules run (c01norm.go, function values); whatever is left is reported as a site
+			// whose argument is unknown rather than silently not being a site.
+			calleePos := map[ast.Expr]bool{}
+			for _, h := range g.Find(func(n ast.Node) bool { _, ok := n.(*ast.CallExpr); return ok }) {
+				calleePos[unparen(h.Node.(*ast.CallExpr).Fun)] = true
+			}
+			for _, h := range g.Find(func(n ast.Node) bool { _, ok := n.(*ast.SelectorExpr); return ok }) {
+				sel := h.Node.(*ast.SelectorExpr)
+				if calleePos[sel] {
+					continue
+				}
+				si := fi.Pkg.TypesInfo.Selections[sel]
+				if si == nil || (si.Kind() != types.MethodVal && si.Kind() != types.MethodExpr) {
+					continue
+				}
+				fn, _ := si.Obj().(*types.Func)
+				if fn == nil {
+					continue
+				}
+				fake := &ast.CallExpr{Fun: sel, Args: []ast.Expr{ast.NewIdent("_")}}
+				if _, _, label, ok := isSink(fi.Pkg, fake, fn); ok {
+					out = append(out, &Emission{Fn: fi, FnName: u.name, Call: fake, Loc: h.Loc, G: g, Sink: label + " (as a value)", ArgExpr: sel,
+						Why:   "the sink " + types.ExprString(sel) + " is used as a value: what is written through it is not visible here",
+						Facts: g.FactsAt(h.Loc), GuardKeys: guardKeys(g, h.Loc)})
+				}
+			}
 			for _, h := range g.Find(func(n ast.Node) bool { _, ok := n.(*ast.CallExpr); return ok }) {
 				call := h.Node.(*ast.CallExpr)
 				fn := calleeOf(fi.Pkg.TypesInfo, call)
@@ -1181,9 +1682,113 @@ func ExtractEmissions(p *Program, fis []*FuncInfo, isSink SinkFn) []*Emission {
 				}
 				em.Facts = g.FactsAt(h.Loc)
 				em.GuardKeys = guardKeys(g, h.Loc)
+				if containsStr(em.GuardKeys, "⊥") {
+					continue // dominated by a condition that is constantly false (a helper inlined with a constant flag)
+				}
+				// the sequence was chosen into a local variable earlier and is written here: one emission per
+				// definition that reaches the write, under the guards of the definition and of the write together
+				if !okv && !isFmt {
+					if exp := se.expandByDefinition(fi, g, em); exp != nil {
+						out = append(out, exp...)
+						continue
+					}
+				}
 				out = append(out, em)
 			}
 		}
+	}
+	return out
+}
+
+// expandByDefinition: em writes a local string / []byte variable (possibly converted) that is assigned in several
+// places of the function; returns one resolved emission per assignment that can reach the write — located AT THE
+// ASSIGNMENT (that is where the choice is made; Loc and G serve reachability questions), with the guard keys of the
+// assignment and of the write (those of the write that do not test the variable itself). nil if the argument is not
+// such a variable or some reaching assignment does not evaluate to templates.
+func (se *strEval) expandByDefinition(fi *FuncInfo, g *FG, em *Emission) []*Emission {
+	arg := unparen(em.ArgExpr)
+	for {
+		call, ok := arg.(*ast.CallExpr)
+		if !ok || len(call.Args) != 1 {
+			break
+		}
+		if tv, ok := se.info.Types[call.Fun]; !ok || !tv.IsType() {
+			break
+		}
+		arg = unparen(call.Args[0])
+	}
+	id, ok := arg.(*ast.Ident)
+	if !ok {
+		return nil
+	}
+	obj := se.info.ObjectOf(id)
+	defs := c07LocalDefs(&FuncInfo{Pkg: fi.Pkg, Decl: &ast.FuncDecl{Body: g.Body, Type: g.Type, Recv: g.Recv}, Name: fi.Name}, obj)
+	if len(defs) < 2 {
+		return nil
+	}
+	// a parameter or a variable captured from an enclosing function carries values we do not see
+	if v, isVar := obj.(*types.Var); !isVar || v.Pos() < g.Body.Pos() || v.Pos() >= g.Body.End() {
+		return nil
+	}
+	// the guards of the write, except conditions on the variable itself (`if seq != ""`)
+	var useKeys []string
+	for _, gd := range g.Guards(em.Loc) {
+		objs := objsIn(g.Info, gd.Cond.Expr)
+		if gd.Cond.Tag != nil {
+			for o := range objsIn(g.Info, gd.Cond.Tag) {
+				objs[o] = true
+			}
+		}
+		for _, a := range gd.Cond.Alts {
+			for o := range objsIn(g.Info, a) {
+				objs[o] = true
+			}
+		}
+		if v, isVar := obj.(*types.Var); isVar && objs[v] {
+			continue
+		}
+		useKeys = append(useKeys, condKeys(g.Info, gd.Cond, gd.Pol)...)
+	}
+	var out []*Emission
+	for _, d := range defs {
+		dl, okL := g.Locate(d.node)
+		if !okL {
+			return nil
+		}
+		if !g.reachesUnder(dl, em.Loc, d.isDef, nil) {
+			continue
+		}
+		var vals []string
+		if d.rhs == nil {
+			// declared without a value: the zero string
+			if vs, isVS := d.node.(*ast.ValueSpec); isVS && len(vs.Values) == 0 {
+				vals = []string{""}
+			} else {
+				return nil
+			}
+		} else {
+			v, okE := se.eval(d.rhs, nil)
+			if !okE {
+				return nil
+			}
+			vals = v
+		}
+		e2 := *em
+		e2.Templates, e2.Resolved, e2.Why = vals, true, ""
+		e2.Loc = dl
+		e2.Facts = g.FactsAt(dl)
+		keys := guardKeys(g, dl)
+		for _, k := range useKeys {
+			if !containsStr(keys, k) {
+				keys = append(keys, k)
+			}
+		}
+		sort.Strings(keys)
+		e2.GuardKeys = keys
+		out = append(out, &e2)
+	}
+	if len(out) == 0 {
+		return nil
 	}
 	return out
 }
@@ -1345,6 +1950,7 @@ func buildAliasTable(info *types.Info, files []*ast.File) {
 	anyDefs := map[types.Object][]ast.Expr{}
 	multi := map[types.Object]bool{}
 	rangeDefs := map[types.Object][]ast.Expr{}
+	rangeKeyDefs := map[types.Object][]ast.Expr{}
 	tupleDefs := map[types.Object][]tupleDef{}
 	writes := map[types.Object]int{}
 	note := func(l ast.Expr, r ast.Expr, define bool) {
@@ -1401,6 +2007,15 @@ func buildAliasTable(info *types.Info, files []*ast.File) {
 			case *ast.RangeStmt:
 				if s.Key != nil {
 					note(s.Key, nil, false)
+					if id, ok := s.Key.(*ast.Ident); ok && s.Tok == token.DEFINE && id.Name != "_" {
+						// only slices and arrays: the key of a map or channel range is not an index
+						switch info.TypeOf(s.X).Underlying().(type) {
+						case *types.Slice, *types.Array:
+							rangeKeyDefs[info.ObjectOf(id)] = append(rangeKeyDefs[info.ObjectOf(id)], s.X)
+						case *types.Pointer:
+							rangeKeyDefs[info.ObjectOf(id)] = append(rangeKeyDefs[info.ObjectOf(id)], s.X)
+						}
+					}
 				}
 				if s.Value != nil {
 					note(s.Value, nil, false)
@@ -1449,6 +2064,13 @@ func buildAliasTable(info *types.Info, files []*ast.File) {
 		}
 	}
 	rangeSourceTables[info] = rs
+	rk := map[types.Object]ast.Expr{}
+	for o, xs := range rangeKeyDefs {
+		if len(xs) == 1 && writes[o] == 1 && o != nil {
+			rk[o] = xs[0]
+		}
+	}
+	rangeKeyTables[info] = rk
 	td := map[types.Object]tupleDef{}
 	for o, ds := range tupleDefs {
 		if len(ds) == 1 && writes[o] == 1 && o != nil {
